@@ -200,6 +200,7 @@ struct Sums {
     v6_cases_clean: u64,
     after_half_cases_clean: u64,
     slow_reader_cases_clean: u64,
+    with_request_cases_clean: u64,
     stray_cases_clean: u64,
     unsendable_cases_clean: u64,
     families_cases_clean: u64,
@@ -294,6 +295,14 @@ struct Bounds {
     /// ... and the points (entry point, the writing end finishes with a half-close (true) / a close
     /// of both directions (false), simultaneous connections), each run as a download and as an upload
     slow_reader_points: Vec<(Entry, bool, usize)>,
+    /// with-request sub-matrix (the local client sends the first bytes of its payload in the same
+    /// write as its SOCKS CONNECT request): client->target lengths (none is 0: nothing would travel
+    /// with the request) ...
+    with_request_c2t_lens: Vec<usize>,
+    /// ... target->client lengths ...
+    with_request_t2c_lens: Vec<usize>,
+    /// ... and simultaneous connections
+    with_request_concs: Vec<usize>,
 }
 
 /// payload lengths every dual-stack-listener topology is run with, in both tiers (a reply header
@@ -346,10 +355,10 @@ fn bounds_of_tier(args: &Args) -> Bounds {
     // the default receive window is 512 frames and the bridges read at most 8 KiB per frame, so
     // 512 * 8 KiB = 4 MiB is the least stream length that certainly needs a window update
     if args.thorough() {
-        Bounds { tcp_lens: vec![0, 1, 4099, 3 * 512 * 8192 + 5], tcp_len_window: None, slow_udp: true, concs: vec![1, 3, 5], udp_lens: vec![0, 1, 2, 3, 4, 5, 1400, 1472, 9000, 65000], deadline_s: 40, parallel: args.threads.clamp(1, 8), ipv6_loopback: tcp::ipv6_loopback(), tcp_v6_lens: vec![(1, 1), (70001, 70001)], udp_two_families: udp::ipv6_loopback(), udp_dual_listener_skip: (None, None), udp_dual_listener_lens: Vec::new(), udp_dual_listener_lens_3: Vec::new(), tcp_dual_lens: vec![(4099, 4099)], after_half_lens: vec![1, 3 * 512 * 8192 + 5], after_half_conc3_len: Some(4099), slow_reader_len: 48 << 20, slow_reader_stall_s: 5, slow_reader_points: slow_points(&[Entry::TcpRemote, Entry::UnixRemote, Entry::Socks5Ip, Entry::Socks5Domain, Entry::HttpConnect], &[Entry::TcpRemote, Entry::Socks5Ip]) }
+        Bounds { tcp_lens: vec![0, 1, 4099, 3 * 512 * 8192 + 5], tcp_len_window: None, slow_udp: true, concs: vec![1, 3, 5], udp_lens: vec![0, 1, 2, 3, 4, 5, 1400, 1472, 9000, 65000], deadline_s: 40, parallel: args.threads.clamp(1, 8), ipv6_loopback: tcp::ipv6_loopback(), tcp_v6_lens: vec![(1, 1), (70001, 70001)], udp_two_families: udp::ipv6_loopback(), udp_dual_listener_skip: (None, None), udp_dual_listener_lens: Vec::new(), udp_dual_listener_lens_3: Vec::new(), tcp_dual_lens: vec![(4099, 4099)], after_half_lens: vec![1, 3 * 512 * 8192 + 5], after_half_conc3_len: Some(4099), slow_reader_len: 48 << 20, slow_reader_stall_s: 5, slow_reader_points: slow_points(&[Entry::TcpRemote, Entry::UnixRemote, Entry::Socks5Ip, Entry::Socks5Domain, Entry::HttpConnect], &[Entry::TcpRemote, Entry::Socks5Ip]), with_request_c2t_lens: vec![1, 999, 4099, 70001], with_request_t2c_lens: vec![0, 1, 4099, 70001], with_request_concs: vec![1, 3] }
     } else {
         // 70001 B: nine 8 KiB frames, everywhere; 4198403 B (one window + 4099 B: needs a window update): sub-matrix
-        Bounds { tcp_lens: vec![0, 1, 70001], tcp_len_window: Some(512 * 8192 + 4099), slow_udp: false, concs: vec![1, 3], udp_lens: vec![0, 1, 3, 4, 1400], deadline_s: 30, parallel: args.threads.clamp(1, 8), ipv6_loopback: tcp::ipv6_loopback(), tcp_v6_lens: vec![(1, 1), (70001, 70001)], udp_two_families: udp::ipv6_loopback(), udp_dual_listener_skip: (None, None), udp_dual_listener_lens: Vec::new(), udp_dual_listener_lens_3: Vec::new(), tcp_dual_lens: vec![(4099, 4099)], after_half_lens: vec![1, 512 * 8192 + 4099], after_half_conc3_len: Some(70001), slow_reader_len: 24 << 20, slow_reader_stall_s: 3, slow_reader_points: vec![(Entry::TcpRemote, true, 1), (Entry::Socks5Ip, false, 2)] }
+        Bounds { tcp_lens: vec![0, 1, 70001], tcp_len_window: Some(512 * 8192 + 4099), slow_udp: false, concs: vec![1, 3], udp_lens: vec![0, 1, 3, 4, 1400], deadline_s: 30, parallel: args.threads.clamp(1, 8), ipv6_loopback: tcp::ipv6_loopback(), tcp_v6_lens: vec![(1, 1), (70001, 70001)], udp_two_families: udp::ipv6_loopback(), udp_dual_listener_skip: (None, None), udp_dual_listener_lens: Vec::new(), udp_dual_listener_lens_3: Vec::new(), tcp_dual_lens: vec![(4099, 4099)], after_half_lens: vec![1, 512 * 8192 + 4099], after_half_conc3_len: Some(70001), slow_reader_len: 24 << 20, slow_reader_stall_s: 3, slow_reader_points: vec![(Entry::TcpRemote, true, 1), (Entry::Socks5Ip, false, 2)], with_request_c2t_lens: vec![1, 4099, 70001], with_request_t2c_lens: vec![0, 1, 70001], with_request_concs: vec![1, 3] }
     }
 }
 
@@ -402,10 +411,34 @@ fn slow_matrix(b: &Bounds) -> Vec<TcpCase> {
     v
 }
 
+/// The with-request sub-matrix ("optimistic data"): every local client of the rest of the matrix
+/// works in lock-step (request, wait for the reply, payload). Here the first
+/// min(length, `tcp::WITH_REQUEST_HEAD`) bytes of the client->target payload travel in the same
+/// write as the SOCKS CONNECT request, the reply is read afterwards and the rest of the payload
+/// follows in one write: a proxy that parses the request through a read buffer has those bytes in
+/// that buffer and must hand them on. SOCKS entry points only (`tcp::WITH_REQUEST_ENTRIES`), the
+/// close orders in which the client writes its whole payload at once (`tcp::WITH_REQUEST_ORDERS`).
+fn with_request_matrix(b: &Bounds) -> Vec<TcpCase> {
+    let mut v = Vec::new();
+    for entry in tcp::WITH_REQUEST_ENTRIES {
+        for &conc in &b.with_request_concs {
+            for order in tcp::WITH_REQUEST_ORDERS {
+                for &c2t in b.with_request_c2t_lens.iter().filter(|l| **l > 0) {
+                    for &t2c in &b.with_request_t2c_lens {
+                        v.push(TcpCase { entry, c2t, t2c, chunk: Chunk::WithRequest, order, conc, dual: None, slow: None });
+                    }
+                }
+            }
+        }
+    }
+    v
+}
+
 fn matrix(b: &Bounds) -> Vec<Case> {
     let mut v = Vec::new();
     // they start first and run beside everything else (see `weight` and the pool)
     v.extend(slow_matrix(b).into_iter().map(Case::Tcp));
+    v.extend(with_request_matrix(b).into_iter().map(Case::Tcp));
     for entry in Entry::ALL {
         for &conc in &b.concs {
             for chunk in Chunk::ALL {
@@ -1004,7 +1037,7 @@ pub fn run(args: &Args) -> Report {
     let b = bounds(args);
     // ---- the oracle's own parts
     let concs_max = *b.concs.iter().max().unwrap_or(&1);
-    if let Err(e) = proto::self_test().and_then(|()| tcp::self_test_payloads(&b.tcp_lens.iter().copied().chain(b.tcp_len_window).chain([tcp::SLOW_REVERSE_LEN]).collect::<Vec<_>>(), concs_max.max(3))).and_then(|()| udp::self_test()).and_then(|()| control_self_test()) {
+    if let Err(e) = proto::self_test().and_then(|()| tcp::self_test_payloads(&b.tcp_lens.iter().copied().chain(b.tcp_len_window).chain([tcp::SLOW_REVERSE_LEN]).chain(b.with_request_c2t_lens.iter().copied()).chain(b.with_request_t2c_lens.iter().copied()).collect::<Vec<_>>(), concs_max.max(3))).and_then(|()| udp::self_test()).and_then(|()| control_self_test()) {
         rep.machinery_error = Some(format!("self-test: {e}"));
         return rep;
     }
@@ -1169,6 +1202,7 @@ pub fn run(args: &Args) -> Report {
                                     }
                                     match case {
                                         Case::Tcp(t) if t.slow.is_some() => g.slow_reader_cases_clean += 1,
+                                        Case::Tcp(t) if t.chunk == Chunk::WithRequest => g.with_request_cases_clean += 1,
                                         Case::Tcp(t) if t.entry.v6literal() => g.v6_cases_clean += 1,
                                         Case::Tcp(t) if t.order.after_half() => g.after_half_cases_clean += 1,
                                         Case::Udp(u) if u.topo.stray().is_some() => g.stray_cases_clean += 1,
@@ -1343,6 +1377,18 @@ pub fn run(args: &Args) -> Report {
         len = b.slow_reader_len,
         stall = b.slow_reader_stall_s
     );
+    let with_request_cases: Vec<TcpCase> = with_request_matrix(&b);
+    let with_request_rule = format!(
+        "; plus the with-request sub-matrix (a local client that does not wait for the proxy's reply; every other local client of the matrix sends its request, waits for the reply and only then sends payload): SOCKS entry point ({}) x connections {:?} x close order ({}) x client->target length in {:?} x target->client length in {:?}, chunking {}: the first min(client->target length, {}) payload bytes travel in the SAME write as the CONNECT request (SOCKS4/4a: request ++ bytes; SOCKS5: method negotiation in lock-step, then CONNECT request ++ bytes), then the client reads the reply, then the rest of its payload follows in one write; the target writes in one write; same oracle as everywhere (what each target connection received equals what its local connection sent, EOF semantics); their violation keys end in {}; HTTP CONNECT is not part of it (a client may not send before the 2xx)",
+        tcp::WITH_REQUEST_ENTRIES.iter().map(|e| e.name()).collect::<Vec<_>>().join(", "),
+        b.with_request_concs,
+        tcp::WITH_REQUEST_ORDERS.iter().map(|e| e.name()).collect::<Vec<_>>().join(", "),
+        b.with_request_c2t_lens,
+        b.with_request_t2c_lens,
+        Chunk::WithRequest.name(),
+        tcp::WITH_REQUEST_HEAD,
+        tcp::WITH_REQUEST_KEY_SUFFIX
+    );
     let v6_rule = if b.ipv6_loopback {
         format!("; plus the IPv6-literal sub-matrix (target listens on [::1]): entry point (remote specification with [::1]:port, SOCKS5 CONNECT with ATYP=4, HTTP CONNECT [::1]:port) x (client->target, target->client) lengths {:?}, {} connection, {}, {}", b.tcp_v6_lens, V6_CONC, V6_CHUNK.name(), V6_ORDER.name())
     } else {
@@ -1393,7 +1439,7 @@ pub fn run(args: &Args) -> Report {
         Topo::UNSENDABLE.iter().filter_map(|t| t.unsendable()).map(|(d, n, _)| format!("{n}: {}", d.describe())).collect::<Vec<_>>().join("; "),
         udp::UNSEND_LEN
     );
-    rep.rule = format!("complete product, every point enumerated (no sampling): TCP = entry point (7) x connections {:?} x chunking (3) x [close order (4) x client->target length in L x target->client length in L + target-refuses x client->target length in L], where {len_rule}{after_half_rule}{slow_rule}{v6_rule}{dual_rule}; UDP = entry (UDP remote, SOCKS5 UDP with IPv4 header, with domain header) x topology (1 client, 3 clients, 1 socket to 2 entry points, 1 client whose payload lengths change from datagram to datagram (len, 3, len+500, 0, len+1); SOCKS5 only: 1 association alternating between 2 targets with the same host string and different ports, and between 2 targets with different host strings 127.0.0.1/127.0.0.2 and the same port) x payload length, 3 request/reply exchanges per leg{stray_rule}{unsendable_rule}{families_rule}{dual_listener_rule}{}; one execution per point (more only after a lost port race or a deadline hit); a case is distinct when its parameter tuple is distinct", b.concs, if b.slow_udp { format!("; plus the real-time scenarios: UDP entry (3) x [steady sender: 1 datagram of {} bytes per second for 2*UDP_PRUNE_TIMEOUT+3 = {} s to a silent target, which then answers the last one | idle: one exchange, {} s of silence, one more exchange | idle gap between one and two prune timeouts: one exchange, {} s of silence, one more exchange from the same socket whose FIRST transmission must be at the target within {} ms]", udp::SLOW_LEN, 2 * udp::prune_timeout().as_secs() + 3, 2 * udp::prune_timeout().as_secs() + 1, udp::prune_timeout().as_secs() + udp::GAP_EXTRA_S, udp::GAP_FIRST_TX_MS) } else { format!("; plus one real-time scenario per UDP entry (3): idle gap between one and two prune timeouts (one exchange, {} s of silence, one more exchange from the same socket whose FIRST transmission must be at the target within {} ms)", udp::prune_timeout().as_secs() + udp::GAP_EXTRA_S, udp::GAP_FIRST_TX_MS) });
+    rep.rule = format!("complete product, every point enumerated (no sampling): TCP = entry point (7) x connections {:?} x chunking (3) x [close order (4) x client->target length in L x target->client length in L + target-refuses x client->target length in L], where {len_rule}{after_half_rule}{slow_rule}{with_request_rule}{v6_rule}{dual_rule}; UDP = entry (UDP remote, SOCKS5 UDP with IPv4 header, with domain header) x topology (1 client, 3 clients, 1 socket to 2 entry points, 1 client whose payload lengths change from datagram to datagram (len, 3, len+500, 0, len+1); SOCKS5 only: 1 association alternating between 2 targets with the same host string and different ports, and between 2 targets with different host strings 127.0.0.1/127.0.0.2 and the same port) x payload length, 3 request/reply exchanges per leg{stray_rule}{unsendable_rule}{families_rule}{dual_listener_rule}{}; one execution per point (more only after a lost port race or a deadline hit); a case is distinct when its parameter tuple is distinct", b.concs, if b.slow_udp { format!("; plus the real-time scenarios: UDP entry (3) x [steady sender: 1 datagram of {} bytes per second for 2*UDP_PRUNE_TIMEOUT+3 = {} s to a silent target, which then answers the last one | idle: one exchange, {} s of silence, one more exchange | idle gap between one and two prune timeouts: one exchange, {} s of silence, one more exchange from the same socket whose FIRST transmission must be at the target within {} ms]", udp::SLOW_LEN, 2 * udp::prune_timeout().as_secs() + 3, 2 * udp::prune_timeout().as_secs() + 1, udp::prune_timeout().as_secs() + udp::GAP_EXTRA_S, udp::GAP_FIRST_TX_MS) } else { format!("; plus one real-time scenario per UDP entry (3): idle gap between one and two prune timeouts (one exchange, {} s of silence, one more exchange from the same socket whose FIRST transmission must be at the target within {} ms)", udp::prune_timeout().as_secs() + udp::GAP_EXTRA_S, udp::GAP_FIRST_TX_MS) });
     rep.bounds.insert("tcp_entry_points".into(), json!(Entry::ALL.iter().map(|e| e.name()).collect::<Vec<_>>()));
     rep.bounds.insert("ipv6_loopback".into(), json!(b.ipv6_loopback));
     rep.bounds.insert("tcp_ipv6_literal_entry_points".into(), json!(if b.ipv6_loopback { Entry::V6.iter().map(|e| e.name()).collect::<Vec<_>>() } else { Vec::new() }));
@@ -1445,6 +1491,14 @@ pub fn run(args: &Args) -> Report {
     rep.bounds.insert("tcp_slow_reader_entry_finish_connections".into(), json!(b.slow_reader_points.iter().map(|(e, half, conc)| json!([e.name(), if *half { "half-close" } else { "close" }, conc])).collect::<Vec<_>>()));
     rep.bounds.insert("tcp_slow_reader_deadline_s".into(), json!(slow_cases.first().map_or(b.deadline_s, |c| c.deadline_s(b.deadline_s))));
     rep.bounds.insert("tcp_slow_reader_cases".into(), json!(slow_cases.iter().map(TcpCase::label).collect::<Vec<_>>()));
+    rep.bounds.insert("tcp_with_request_chunking".into(), json!(Chunk::WithRequest.name()));
+    rep.bounds.insert("tcp_with_request_entry_points".into(), json!(tcp::WITH_REQUEST_ENTRIES.iter().map(|e| e.name()).collect::<Vec<_>>()));
+    rep.bounds.insert("tcp_with_request_close_orders".into(), json!(tcp::WITH_REQUEST_ORDERS.iter().map(|e| e.name()).collect::<Vec<_>>()));
+    rep.bounds.insert("tcp_with_request_connections".into(), json!(b.with_request_concs));
+    rep.bounds.insert("tcp_with_request_payload_lengths_c2t".into(), json!(b.with_request_c2t_lens));
+    rep.bounds.insert("tcp_with_request_payload_lengths_t2c".into(), json!(b.with_request_t2c_lens));
+    rep.bounds.insert("tcp_with_request_bytes_in_the_write_of_the_request_at_most".into(), json!(tcp::WITH_REQUEST_HEAD));
+    rep.bounds.insert("tcp_with_request_cases".into(), json!(with_request_cases.len()));
     rep.bounds.insert("udp_entries".into(), json!(UKind::ALL.iter().map(|e| e.name()).collect::<Vec<_>>()));
     rep.bounds.insert("udp_topologies".into(), json!(Topo::ALL.iter().map(|e| e.name()).collect::<Vec<_>>()));
     rep.bounds.insert("udp_payload_lengths".into(), json!(b.udp_lens));
@@ -1492,6 +1546,7 @@ pub fn run(args: &Args) -> Report {
     rep.extra.insert("tcp_closed_after_half_close_then_close_filler_read_before_close".into(), json!(sums.tcp.after_halfclose_filler_read));
     rep.extra.insert("tcp_closed_after_half_close_then_close_write_error_kinds".into(), json!(sums.tcp.after_halfclose_end_kinds));
     rep.extra.insert("tcp_slow_reader_cases_clean".into(), json!(sums.slow_reader_cases_clean));
+    rep.extra.insert("tcp_with_request_cases_clean".into(), json!(sums.with_request_cases_clean));
     rep.extra.insert("tcp_slow_reader_cases_verified_with_every_writer_held_back_at_first_read".into(), json!(sums.tcp.slow_reader_backed_up));
     rep.extra.insert("tcp_slow_reader_bytes_written_per_connection_at_first_read_min_max".into(), json!([sums.tcp.slow_reader_written_at_first_read_min, sums.tcp.slow_reader_written_at_first_read_max]));
     rep.extra.insert("refuse_granted_then_closed".into(), json!(sums.tcp.refuse_granted_then_closed));
@@ -1525,7 +1580,8 @@ pub fn run(args: &Args) -> Report {
             rep.sample(c.to_json());
         }
     }
-    let picks: [&dyn Fn(&Case) -> bool; 13] = [
+    let picks: [&dyn Fn(&Case) -> bool; 14] = [
+        &|c| matches!(c, Case::Tcp(t) if t.chunk == Chunk::WithRequest && t.entry == Entry::Socks5Domain && t.order == Order::ClientHalf && t.conc == 1 && t.c2t > tcp::WITH_REQUEST_HEAD && t.t2c > 1),
         &|c| matches!(c, Case::Tcp(t) if t.slow.is_some_and(|s| s.dir == SlowDir::Download) && t.entry == Entry::TcpRemote && t.conc == 1),
         &|c| matches!(c, Case::Tcp(t) if t.slow.is_some_and(|s| s.dir == SlowDir::Upload) && t.entry == Entry::Socks5Ip),
         &|c| matches!(c, Case::Udp(u) if u.kind == UKind::SocksIp && u.topo == Topo::DualV4 && u.size == 3),
@@ -1551,6 +1607,7 @@ pub fn run(args: &Args) -> Report {
     rep.assumptions.push("how a read ends after BOTH directions are finished (EOF or reset) is recorded, not judged; a half-close must arrive as a true EOF and the data sent after it must arrive completely".into());
     rep.assumptions.push(format!("close-after-half-close orders: only 'the still-sending end's writes begin to fail before the deadline' is judged about the close (which error, and whether a reset or an EOF came first, is recorded in extra.tcp_closed_after_half_close_then_close_write_error_kinds); the closing end closes after the other end's payload and {} filler bytes or {} ms, whichever comes first (extra.tcp_closed_after_half_close_then_close_filler_read_before_close counts the closes that had read filler); the filler received must be a prefix of the filler sent", tcp::AFTER_HALF_FILLER_READ, tcp::AFTER_HALF_LINGER.as_millis()));
     rep.assumptions.push(format!("slow-reader sub-matrix: the stall is a fixed time ({} s), not 'until the writer blocks'; that the writers were in fact held back when the reading began (payload bytes left to write on every connection) is recorded (extra.tcp_slow_reader_cases_verified_with_every_writer_held_back_at_first_read, extra.tcp_slow_reader_bytes_written_per_connection_at_first_read_min_max) and a run in which no clean scenario was like that is vacuous (a machinery error); the socket buffer sizes are the kernel's (no SO_SNDBUF / SO_RCVBUF is set); only the order 'first read after the stall' is imposed on the reader, how fast it reads afterwards is whatever the runtime gives. The writes are {} ms apart on purpose: the bridges of the subject put everything they can read at one go into ONE Push frame and the window counts frames, so a writer that never pauses travels as a few frames of many megabytes and no window ever fills (measured here: 256 MiB written within 3 s with nobody reading); how many frames the paced writes become is still the subject's and the scheduler's business", b.slow_reader_stall_s, tcp::K16_PAUSE.as_millis()));
+    rep.assumptions.push(format!("with-request sub-matrix: 'in the same write' is one write_all of one buffer (request ++ first payload bytes, at most {} + the request) on a loopback TCP socket; whether the proxy receives both with ONE read is the kernel's business (on loopback a write of this size is queued as one piece) and is not checked; a client that sends before the reply is within the SOCKS4 memo and RFC 1928 (neither makes the client wait; the bytes wait in the proxy's buffers) and a direct connection would deliver the bytes", tcp::WITH_REQUEST_HEAD));
     rep.assumptions.push("target refuses: a SOCKS/HTTP success answer followed by a close, a refusal answer, or a close before the answer all count as 'closed rather than left hanging'".into());
     rep.assumptions.push("the address inside the SOCKS5 UDP reply header is recorded (extra.socks5_udp_header_addr_*), not judged: the statement only demands a well-formed header that can be stripped".into());
     rep.assumptions.push("loopback only (127.0.0.1, a Unix socket and, for the targets of the IPv6-literal, dual-stack-name and two-address-families sub-matrices where it exists, [::1]); plain ws:// between client and server; keep-alive off; fresh client+server per matrix point".into());
